@@ -36,6 +36,15 @@ def check_mint_helper(ctx, rule, v, compute_d_rx, dep, pool, supply, key):
     for b, i, s_ in v.iter_stmts():
         if s_["lhs"]["l"] == 0 and s_["rv"]["r"] == "agg" and s_["rv"].get("variant") == "Some":
             rets.append(norm_shape(expr_shape(v, s_["rv"]["ops"][0], (b, i), depth=7)))
+    # `(d_1 > d_0).then(|| amount)`: the payload is what the closure computes
+    from ..dataflow import _closure_result_shapes
+    ret_os = set()
+    for rb in v.return_blocks():
+        ret_os |= v.origins_of_place({"l": 0, "p": []}, at=v.at_term(rb))
+    for b, t in v.calls_to(r"^std::bool::then$"):
+        if any(o.kind == "call" and o.b == "%s:bb%d" % (v.path, b) for o in ret_os):
+            for sh in _closure_result_shapes(v, b, t, 8) or ["?"]:
+                rets.append(norm_shape(sh))
     name = re.sub(r"\W+$", "", compute_d_rx).split("::")[-1].rstrip("$")
 
     def leafify(sh):
